@@ -107,7 +107,7 @@ func genC13(tier string, seed int64) []Case {
 	r := rng(seed, "C13")
 	n := 500
 	if tier == "thorough" {
-		n = 8000
+		n = 30000
 	}
 	allOps := []string{"register", "register", "next", "next", "initerr", "exiterr", "id-missing", "id-invalid", "id-unknown", "id-other", "noerrtype"}
 	for i := 0; i < n; i++ {
